@@ -75,28 +75,31 @@ macro_rules! resume_case {
                 assert!(st_whole[j] == want_end[j], "final exported state is not the public chaining value");
                 j += 1;
             }
-            // interrupted at a symbolic block boundary k
+            // interrupted at a symbolic block boundary k (case split; objects live inside the branch)
             let k: usize = kani::any();
             kani::assume(k <= N);
             let mut buf = input;
-            let mut m1 = $ty::$t2::inner_iv_init(c.clone(), blk::<$ivbs>(&iv));
-            let (p1, p2) = blocks_mut::<$mbs>(&mut buf).split_at_mut(k);
-            do_blocks!($dir, m1, p1);
-            let st = m1.iv_state();
-            let want_k = chain_value($kind, B, MB, &iv, &pt[..], &ct[..], k);
-            let mut j = 0;
-            while j < $ivlen {
-                assert!(st[j] == want_k[j], "exported state is not the public chaining value");
-                j += 1;
-            }
-            let mut m2 = $ty::$t2::inner_iv_init(c.clone(), &st);
-            do_blocks!($dir, m2, p2);
+            let mut st2 = [0u8; $ivlen];
+            split_on!(k, 0, N, k_ => {
+                let mut m1 = $ty::$t2::inner_iv_init(c.clone(), blk::<$ivbs>(&iv));
+                let (p1, p2) = blocks_mut::<$mbs>(&mut buf).split_at_mut(k_);
+                do_blocks!($dir, m1, p1);
+                let st = m1.iv_state();
+                let want_k = chain_value($kind, B, MB, &iv, &pt[..], &ct[..], k_);
+                let mut j = 0;
+                while j < $ivlen {
+                    assert!(st[j] == want_k[j], "exported state is not the public chaining value");
+                    j += 1;
+                }
+                let mut m2 = $ty::$t2::inner_iv_init(c.clone(), &st);
+                do_blocks!($dir, m2, p2);
+                st2.copy_from_slice(&m2.iv_state());
+            });
             let mut i = 0;
             while i < L {
                 assert!(buf[i] == whole[i], "fresh instance from the exported state does not continue the stream");
                 i += 1;
             }
-            let st2 = m2.iv_state();
             let mut j = 0;
             while j < $ivlen {
                 assert!(st2[j] == st_whole[j]);
